@@ -16,7 +16,7 @@ from .. import ratio
 from .. import tracecommon as tcm
 from ..core import MachineryFailure
 
-INVS = ("CountsExact", "ZeroBin", "SampleSize", "NormalisedSumsToOne", "DefaultMetricTable")
+INVS = ("CountsExact", "ZeroBin", "SampleSize", "NormalisedSumsToOne", "DefaultMetricTable", "HomoClosedForm")
 
 
 def cfg_text(letters=(0, 1), maxlen=2, maxn=3, maxn2=0, edgemax=3, maxedges=3, pseudos="P3", elemkinds=("str",), metrickinds=("default",),
@@ -247,6 +247,22 @@ def run(ctx):
             ctx.traces += len(docs)
     ctx.exhaustive = True
     sessions = make_sessions(ctx, 40 if ctx.quick else 400)
+    # long strings: homopolymers of up to 400 letters (distances beyond 255), one- and two-collection forms
+    from pyrepseq.metric import Levenshtein, WeightedLevenshtein
+    for r in range(6 if ctx.quick else 40):
+        def homo():
+            return [ctx.rng.choice(nc.AA), ctx.rng.choice([0, 1, 3, 13, 200, 260, 300, 400])]
+        x = [homo() for _ in range(ctx.rng.randint(2, 5))]
+        y = [homo() for _ in range(ctx.rng.randint(1, 4))] if r % 2 else []
+        edges = sorted(ctx.rng.sample([0, 1, 2, 3, 4, 5, 10, 50, 100, 255, 256, 257, 300, 399, 400, 500], ctx.rng.randint(2, 7)))
+        ev = dict(op="Homo", x=[[nc.AA.index(a), n_] for a, n_ in x], y=[[nc.AA.index(a), n_] for a, n_ in y], edges=edges, raised=False, hist=[])
+        try:
+            metric = [None, Levenshtein(), WeightedLevenshtein(1, 1, 1)][r % 3]
+            h = prs.pcDelta([a * n_ for a, n_ in x], [a * n_ for a, n_ in y] if y else None, bins=edges, normalize=False, **({"metric": metric} if metric else {}))
+            ev["hist"] = [int(v) for v in h]
+        except Exception as e:      # noqa: BLE001
+            ev.update(raised=True, exc=f"{type(e).__name__}: {e}"[:200])
+        sessions.append(dict(sid=8000 + r, inp=sessions[0]["inp"], events=[ev]))
     # bundled background table
     ev = dict(op="Background", index=[], bins=[], nrows=-1, pcdelta_len=-1)
     try:
